@@ -19,6 +19,7 @@ import SonicSpec.Proofs.NumDec
 import SonicSpec.Proofs.NumOvf
 import SonicSpec.Proofs.NumInt
 import SonicSpec.Proofs.NumFmt
+import SonicSpec.Proofs.NumNotation
 namespace SonicSpec.Props.C19
 open SonicSpec SonicSpec.Num
 
@@ -348,6 +349,137 @@ theorem candidates_are_neighbours (N D : Nat) (hD : 0 < D) (E : Int) (k : Nat) (
   obtain ⟨h1, h2⟩ := candidates_mem N D E k c h
   obtain ⟨h3, h4⟩ := floorScaled_spec N D (E - (k : Int) + 1) hD
   exact ⟨floorScaled N D (E - (k : Int) + 1), h1, h2, h1 ▸ h3, h1 ▸ h4⟩
+
+/-! ### float -> text, full strength (wave 2) -/
+
+/-- correct rounding is monotone: a smaller rational never rounds to a larger float (values `q * 2^t`
+    in units of the smallest subnormal) -/
+theorem rounding_monotone (p N1 D1 N2 D2 q1 t1 q2 t2 : Nat) (hp : 1 ≤ p) (hD1 : 0 < D1) (hD2 : 0 < D2)
+    (hle : N1 * D2 ≤ N2 * D1) (h1 : IsRNE p N1 D1 q1 t1) (h2 : IsRNE p N2 D2 q2 t2) :
+    q1 * 2 ^ t1 ≤ q2 * 2 ^ t2 :=
+  IsRNE.mono hp hD1 hD2 hle h1 h2
+
+/-- SHORTEST, full strength.  For a finite float `(q, t)` the digits found by the search have at most
+    `k'` digits (`< 10^k'` after stripping trailing zeros), round back to `(q, t)`, and NO decimal
+    `d' * 10^j'` whatsoever with fewer than `k'` digits (`0 < d' < 10^(k'-1)`, any exponent `j'`) rounds to
+    `(q, t)`.  Moreover `k' ≤ K` whenever `2^p < 10^(K-1)`: at most 17 digits for binary64, 9 for binary32. -/
+theorem fmt_shortest (f : Fmt) (hf : f.Ok) (q t : Nat) (hc : Canonical f.prec q t) (ht : t ≤ f.tmax)
+    (c : Nat × Int) (h : shortest f q t = some c) :
+    ∃ k', 1 ≤ k' ∧ k' ≤ 17 ∧ (stripZeros 20 c.1 c.2).1 < 10 ^ k' ∧ roundDec f c.1 c.2 = some (q, t) ∧
+      (∀ (d' : Nat) (j' : Int), d' ≠ 0 → d' < 10 ^ (k' - 1) → roundDec f d' j' ≠ some (q, t)) ∧
+      (∀ K, 1 ≤ K → 2 ^ f.prec < 10 ^ (K - 1) → k' ≤ K) := by
+  obtain ⟨k', a, b, _, d, e, g, i⟩ := shortest_full f hf q t hc ht c h
+  exact ⟨k', a, b, d, e, g, i⟩
+
+/-- 17 significant digits always suffice for binary64 and 9 for binary32 -/
+theorem fmt_digits_f64 (q t : Nat) (hc : Canonical 53 q t) (ht : t ≤ 2045) (c : Nat × Int)
+    (h : shortest f64 q t = some c) : (stripZeros 20 c.1 c.2).1 < 10 ^ 17 := by
+  obtain ⟨k', _, b, d, _, _, _⟩ := fmt_shortest f64 f64_ok q t hc ht c h
+  exact Nat.lt_of_lt_of_le d (Nat.pow_le_pow_right (by decide) b)
+
+theorem fmt_digits_f32 (q t : Nat) (hc : Canonical 24 q t) (ht : t ≤ 253) (c : Nat × Int)
+    (h : shortest f32 q t = some c) : (stripZeros 20 c.1 c.2).1 < 10 ^ 9 := by
+  obtain ⟨k', _, _, d, _, _, i⟩ := fmt_shortest f32 f32_ok q t hc ht c h
+  have := i 9 (by decide) (by decide)
+  exact Nat.lt_of_lt_of_le d (Nat.pow_le_pow_right (by decide) this)
+
+/-- TOTAL: every finite bit pattern of the format's width has a text (so `fmt_roundtrip` is never
+    vacuous): the search succeeds by 17 digits and both layouts parse back to the same bits -/
+theorem fmt_total (f : Fmt) (hf : f.Ok) (hfin : f.Fin) (th : Thresh) (bits : Nat)
+    (hb : bits < 2 * signBit f) (hfinite : (fields f (bits % signBit f)).1 ≠ 2 ^ f.ebits - 1) :
+    ∃ txt, fmtBits f th bits = some txt :=
+  fmtBits_isSome f hf hfin th bits hb hfinite
+
+/-- `fmtF64 b = none` exactly for NaN and the infinities (exponent field all ones) -/
+theorem fmtF64_none_iff (b : UInt64) : fmtF64 b = none ↔ b.toNat % 2 ^ 63 / 2 ^ 52 = 2047 := by
+  have hs : signBit f64 = 2 ^ 63 := by decide
+  have hf : (fields f64 (b.toNat % 2 ^ 63)).1 = b.toNat % 2 ^ 63 / 2 ^ 52 := rfl
+  constructor
+  · intro h
+    apply Classical.byContradiction
+    intro hne
+    obtain ⟨txt, ht⟩ := fmt_total f64 f64_ok f64_fin thresh64 b.toNat (by rw [hs]; exact b.toNat_lt)
+      (by rw [hs, hf]; exact hne)
+    simp only [fmtF64] at h
+    rw [h] at ht
+    cases ht
+  · intro h
+    simp only [fmtF64, fmtBits, fmtBitsRaw, hs, hf, h]
+    rfl
+
+/-- `fmtF32 b = none` exactly for NaN and the infinities -/
+theorem fmtF32_none_iff (b : UInt32) : fmtF32 b = none ↔ b.toNat % 2 ^ 31 / 2 ^ 23 = 255 := by
+  have hs : signBit f32 = 2 ^ 31 := by decide
+  have hf : (fields f32 (b.toNat % 2 ^ 31)).1 = b.toNat % 2 ^ 31 / 2 ^ 23 := rfl
+  constructor
+  · intro h
+    apply Classical.byContradiction
+    intro hne
+    obtain ⟨txt, ht⟩ := fmt_total f32 f32_ok f32_fin thresh32 b.toNat (by rw [hs]; exact b.toNat_lt)
+      (by rw [hs, hf]; exact hne)
+    simp only [fmtF32] at h
+    rw [h] at ht
+    cases ht
+  · intro h
+    simp only [fmtF32, fmtBits, fmtBitsRaw, hs, hf, h]
+    rfl
+
+/-- `%e` layout parses to the decimal it denotes: `[-]d[.ddd]e±x` with `x = dp - 1` is
+    `(-1)^neg * d * 10^(dp - len)` -/
+theorem layout_e_parses (neg : Bool) (d : Nat) (hd : d ≠ 0) (dp : Int) :
+    parseDec ((if neg then [45] else []) ++ fmtE (natDigits d) dp) =
+      some { neg := neg, m := d, e := dp - ((natDigits d).length : Int), isInt := false } :=
+  parseDec_sign neg _ _ (parse_fmtE neg d hd dp)
+
+/-- `%f` layout parses to the same decimal (`m * 10^e = d * 10^(dp - len)`; written as an integer
+    literal `d00..0` when `dp ≥ len`) -/
+theorem layout_f_parses (neg : Bool) (d : Nat) (hd : d ≠ 0) (dp : Int) :
+    ∃ m e isI, parseDec ((if neg then [45] else []) ++ fmtF (natDigits d) dp) =
+        some { neg := neg, m := m, e := e, isInt := isI } ∧
+      ((m = d ∧ e = dp - ((natDigits d).length : Int)) ∨
+       (0 ≤ dp - ((natDigits d).length : Int) ∧ m = d * 10 ^ (dp - ((natDigits d).length : Int)).toNat ∧ e = 0)) := by
+  obtain ⟨m, e, isI, h1, h2⟩ := parse_fmtF neg d hd dp
+  exact ⟨m, e, isI, parseDec_sign neg _ _ h1, h2⟩
+
+/-- NOTATION = encoding/json's.  For finite non-zero bits with shortest digits `d` (stripped) and
+    decimal exponent `X` (`d.ddd * 10^X`): the text is the sign followed by the `%e` layout when
+    `X < -6 ∨ 21 ≤ X` and by the `%f` layout otherwise; and that condition on the decimal exponent is
+    exactly encoding/json's comparison of the float with 1e-6 and 1e21 in the float's own width
+    (`|x| < 1e-6 || |x| >= 1e21` on the magnitude bits; `thresh64_ok`, `thresh32_ok`). -/
+theorem fmt_notation_matches_encoding_json (f : Fmt) (hf : f.Ok) (hfin : f.Fin) (th : Thresh) (hth : th.Ok f)
+    (bits : Nat) (hfinite : (fields f (bits % signBit f)).1 < 2 ^ f.ebits - 1) (hmag : bits % signBit f ≠ 0)
+    (d : Nat) (j : Int) (hs : shortDigits f (bits % signBit f) = some (d, j)) :
+    (decExp d j < -6 ∨ 21 ≤ decExp d j ↔ bits % signBit f < th.lo ∨ th.hi ≤ bits % signBit f) ∧
+    fmtBitsRaw f th bits = some ((if bits / signBit f % 2 = 1 then [45] else []) ++
+      (if decExp d j < -6 ∨ 21 ≤ decExp d j then fmtE (natDigits d) (decExp d j + 1)
+       else fmtF (natDigits d) (decExp d j + 1))) := by
+  have h1 := decExp_ge_iff f hf hfin _ th.lo (-6) hfinite hth.lo_fin hmag hth.lo_round hth.lo_short d j hs
+  have h2 := decExp_ge_iff f hf hfin _ th.hi 21 hfinite hth.hi_fin hmag hth.hi_round hth.hi_short d j hs
+  have hiff : decExp d j < -6 ∨ 21 ≤ decExp d j ↔ bits % signBit f < th.lo ∨ th.hi ≤ bits % signBit f := by
+    constructor
+    · rintro (h | h)
+      · left
+        apply Classical.byContradiction
+        intro hc
+        have := h1.mpr (by omega)
+        omega
+      · exact Or.inr (h2.mp h)
+    · rintro (h | h)
+      · left
+        apply Classical.byContradiction
+        intro hc
+        have := h1.mp (by omega)
+        omega
+      · exact Or.inr (h2.mpr h)
+  refine ⟨hiff, ?_⟩
+  rw [fmtBitsRaw_nonzero f th bits (by omega) hmag d j hs]
+  have e : decExp d j + 1 = ((natDigits d).length : Int) + j := by simp only [decExp]; omega
+  rw [e]
+  by_cases hcnd : decExp d j < -6 ∨ 21 ≤ decExp d j
+  · have h' : bits % signBit f < th.lo ∨ bits % signBit f ≥ th.hi := hiff.mp hcnd
+    simp only [if_pos hcnd, if_pos h']
+  · have h' : ¬ (bits % signBit f < th.lo ∨ bits % signBit f ≥ th.hi) := fun h => hcnd (hiff.mpr h)
+    simp only [if_neg hcnd, if_neg h']
 
 /-! ### non-vacuity: the definitions compute the familiar values -/
 
